@@ -5,7 +5,7 @@ from hypothesis import strategies as st
 import gen
 import model as M
 import oracle
-from common import ModelRun, model_classes, cx, pipeline_guard
+from common import ModelRun, model_classes, cx, pipeline_guard, chi_floor
 from drive import Result, EngineError
 
 RULE = ("Hypothesis generates quadratic Hamiltonians (level / hopping / spin-mixing hopping terms and quadratic presets; real "
@@ -121,7 +121,7 @@ def execute(case, ctx):
                 wick += beta * Gref[n1][i, l] * Gref[n2][j, k]
             r, sc = ref.chi4(i, j, k, l, n1, n2, n3, return_scale=True)
             S = beta ** 3 * sc
-            tol = TOL * (abs(wick) + S) + 1e-13
+            tol = TOL * (abs(wick) + S) + chi_floor(beta, N)
             if not abs(r - wick) <= tol:
                 raise EngineError("oracle self-check failed: divided-difference chi %r vs Wick %r for %r" % (r, wick, case))
             if not abs(v - wick) <= tol:
